@@ -58,3 +58,9 @@ func VerifClientConnect(c *Client) error { return c.connect() }
 
 // VerifSessionTransport sets the unexported transport of a Session value built by the harness.
 func VerifSessionTransport(s *Session, t Transport) { s.transport = t }
+
+// VerifEventState returns the connection state carried by an Event (its field is unexported).
+func VerifEventState(e Event) ConnState { return e.State.state }
+
+// VerifClientState returns the client's current connection state.
+func VerifClientState(c *Client) ConnState { return c.CurrentState.getState() }
